@@ -19,7 +19,10 @@ RULE = ("pairs: EVERY ordered pair of the 221 table types x bond orders {guessed
         "rules, sets of 1-3 types in both listing orders); triples: every centre type with random ends (quick) / every "
         "ordered triple on the real code (thorough); quadruples: every centre type, every torsion class, random ends, "
         "multiplicities 1..9 (quick) / every centre pair x end classes x multiplicities 1..9 (thorough); pair "
-        "coefficients: every type. Non-trivial = distinct input with a defined parameter tuple and an active correction "
+        "coefficients: every type; ORDERED call sequences with the code's default arguments whose consecutive terms have "
+        "different guessed bond orders (forward and reversed), and the real assign_bond/angle/dihedral_types call order on "
+        "random type graphs (every coefficient line vs. the oracle). Unspecified arguments are never passed to the real "
+        "functions (their own defaults are used); given argument objects are checked for mutation. Non-trivial = distinct input with a defined parameter tuple and an active correction "
         "(bonds: a1 != a2 or bond order != 1; angles and torsions: defined result; pairs: all). The exhaustive sweeps of "
         "the thorough tier run in worker processes and are counted in `evaluations` and `input_distribution` only.")
 
@@ -193,32 +196,56 @@ def _bo_py(bo):
     return None if bo is None else float(Fraction(bo))
 
 
+MUTATED = []          # inputs on which the real code modified an argument object it was given (side channel of `real`)
+
+
 def real(inp):
-    """run the real function named by `inp["op"]`; canonical result (call under core.quiet())"""
+    """run the real function named by `inp["op"]`; canonical result (call under core.quiet()).
+    Arguments the input leaves unspecified (bond orders None, no rules, multiplicity 1) are NOT passed, so that the
+    code's own default arguments are used — the way assign_*_types call these functions; explicitly given argument
+    objects are checked for mutation afterwards."""
     op = inp["op"]
     ru = RU()
     rules = _rules_py(inp.get("rules"))
+    rules0 = None if rules is None else [(set(ts), bo) for ts, bo in rules]
+    kw = {} if rules is None else {"bond_order_rules": rules}
     try:
-        if op == "bond_order":
-            return {"ok": core.q(ru.guess_bond_order(inp["a1"], inp["a2"], rules))}
-        if op == "uff_bond":
-            k, r = ru.bond_params(inp["a1"], inp["a2"], bond_order=_bo_py(inp.get("bo")), bond_order_rules=rules)
-            return {"style": "bond", "v": [float(k), float(r)]}
-        if op == "uff_angle":
-            res = ru.angle_params(inp["a1"], inp["a2"], inp["a3"],
-                                  bond_orders=[_bo_py(inp.get("bo1")), _bo_py(inp.get("bo2"))], bond_order_rules=rules)
-            if res[0] == "cosine/periodic":
+        try:
+            if op == "bond_order":
+                if rules is None:
+                    return {"ok": core.q(ru.guess_bond_order(inp["a1"], inp["a2"]))}
+                return {"ok": core.q(ru.guess_bond_order(inp["a1"], inp["a2"], rules))}
+            if op == "uff_bond":
+                if inp.get("bo") is not None:
+                    kw["bond_order"] = _bo_py(inp["bo"])
+                k, r = ru.bond_params(inp["a1"], inp["a2"], **kw)
+                return {"style": "bond", "v": [float(k), float(r)]}
+            if op == "uff_angle":
+                bos = None
+                if inp.get("bo1") is not None or inp.get("bo2") is not None:
+                    bos = [_bo_py(inp.get("bo1")), _bo_py(inp.get("bo2"))]
+                    kw["bond_orders"] = bos
+                res = ru.angle_params(inp["a1"], inp["a2"], inp["a3"], **kw)
+                if bos is not None and bos != [_bo_py(inp.get("bo1")), _bo_py(inp.get("bo2"))]:
+                    MUTATED.append((inp, "bond_orders list changed to %r" % (bos,)))
+                if res[0] == "cosine/periodic":
+                    return {"style": res[0], "v": [float(res[1]), res[2], res[3]]}
+                return {"style": res[0], "v": [float(x) for x in res[1:]]}
+            if op == "uff_dihedral":
+                if inp["m"] != 1:
+                    kw["num_dihedrals_about_bond"] = inp["m"]
+                if inp.get("bo") is not None:
+                    kw["bond_order"] = _bo_py(inp["bo"])
+                res = ru.dihedral_params(inp["a1"], inp["a2"], inp["a3"], inp["a4"], **kw)
+                if res is None:
+                    return {"none": True}
                 return {"style": res[0], "v": [float(res[1]), res[2], res[3]]}
-            return {"style": res[0], "v": [float(x) for x in res[1:]]}
-        if op == "uff_dihedral":
-            res = ru.dihedral_params(inp["a1"], inp["a2"], inp["a3"], inp["a4"], num_dihedrals_about_bond=inp["m"],
-                                     bond_order=_bo_py(inp.get("bo")), bond_order_rules=rules)
-            if res is None:
-                return {"none": True}
-            return {"style": res[0], "v": [float(res[1]), res[2], res[3]]}
-        if op == "uff_pair":
-            eps, sigma = ru.pair_coeffs(inp["a1"])
-            return {"style": "lj", "v": [float(eps), float(sigma)]}
+            if op == "uff_pair":
+                eps, sigma = ru.pair_coeffs(inp["a1"])
+                return {"style": "lj", "v": [float(eps), float(sigma)]}
+        finally:
+            if rules is not None and rules != rules0:
+                MUTATED.append((inp, "bond_order_rules changed to %r" % (rules,)))
     except Exception as e:  # noqa
         return _err(e)
     raise ValueError("unknown op " + op)
@@ -537,6 +564,137 @@ def gen_quads(ctx, n_random, per_class):
     return out
 
 
+def gen_sequences(ctx, n_seq):
+    """ORDERED call sequences with the code's default arguments, built so that consecutive terms have DIFFERENT guessed
+    bond orders (resonant 1.5 / double 2 / single 1 / user rules): every result must equal the stateless formula value
+    whatever was evaluated before (the way assign_*_types evaluate one type after another)."""
+    keys = table()["keys"]
+    rng = ctx.rng
+    res15, dbl, sgl = ["C_R", "N_R", "O_R"], ["C_2", "N_2", "O_2"], ["C_3", "N_3", "O_3", "H_", "F_", "Cl"]
+    metals = [k for k in keys if o_elem(k) not in table()["main"]]
+    fixed = [("C_R", "C_R", "C_R"), ("C_3", "C_3", "C_3"), ("C_2", "C_2", "C_2"), ("O_3", "Zr3+4", "O_3"),
+             ("N_R", "N_R", "H_"), ("C_R", "C_R", "C_3"), ("O_2", "O_2", "O_2"), ("H_", "C_3", "H_"),
+             ("N_2", "N_2", "N_2"), ("O_R", "O_R", "O_R"), ("C_R", "N_R", "C_3"), ("O_3", "Cu4+2", "O_3")]
+    out = []
+
+    def pick(kind):
+        if kind == 0:
+            x = rng.choice(res15)
+            return (x, x, x) if rng.random() < 0.6 else (x, x, rng.choice(keys))
+        if kind == 1:
+            x = rng.choice(dbl)
+            return (x, x, x) if rng.random() < 0.6 else (rng.choice(keys), x, x)
+        if kind == 2:
+            return (rng.choice(sgl), rng.choice(keys), rng.choice(sgl))
+        return (rng.choice(keys), rng.choice(metals), rng.choice(keys))
+
+    def angle(t, rules=None):
+        inp = {"op": "uff_angle", "a1": t[0], "a2": t[1], "a3": t[2], "bo1": None, "bo2": None}
+        if rules:
+            inp["rules"] = rules
+        return inp
+
+    out.extend(angle(t) for t in fixed)
+    out.extend(angle(t) for t in reversed(fixed))
+    for _ in range(n_seq):
+        kinds = [0, 1, 2, 3, 0, 1]
+        rng.shuffle(kinds)
+        for kd in kinds:
+            t = pick(kd)
+            r = rng.random()
+            if r < 0.6:
+                out.append(angle(t))
+            elif r < 0.8:     # user rule that changes the order of one of the two bonds, default bond_orders
+                out.append(angle(t, [[[t[0], t[1]], _q(rng.choice([1, 1.5, 2]))], [[t[1], t[2]], _q(rng.choice([1, 1.25, 2]))]]))
+            elif r < 0.9:
+                out.append({"op": "uff_bond", "a1": t[0], "a2": t[1], "bo": None})
+            else:
+                out.append({"op": "uff_dihedral", "a1": rng.choice(keys), "a2": t[0], "a3": t[1], "a4": rng.choice(keys),
+                            "m": rng.choice([1, 1, 2, 3]), "bo": None})
+    return out
+
+
+def _coef_close(got, want_res):
+    """a coefficient string of assign_*_types (without its comment) vs the oracle's parameter tuple"""
+    want = text(want_res)
+    if got.split() == want.split():
+        return True
+    g, w = got.split(), want.split()
+    if len(g) != len(w) or not near_rounding_boundary(want_res):
+        return False
+    try:
+        return all(a == b or abs(float(a) - float(b)) <= 1.0000001e-6 for a, b in zip(g, w))
+    except ValueError:
+        return False
+
+
+def assign_stream(ctx, n_mol):
+    """the real assign_bond_types / assign_angle_types / assign_dihedral_types call order on small random type
+    graphs (duck-typed atoms object): every written coefficient line must be the oracle's text for the type tuple named
+    in its comment.  Oracle only (the typing itself belongs to C19)."""
+    import types
+    import numpy as np
+    keys = table()["keys"]
+    rng = ctx.rng
+    ru = RU()
+    organic = ["C_R", "C_3", "C_2", "N_R", "N_3", "O_3", "O_2", "O_R", "H_", "N_2", "C_1", "S_3+2", "Zr3+4", "Cu4+2", "Zn3+2"]
+    for _ in range(n_mol):
+        n = rng.randint(5, 10)
+        ut = [rng.choice(organic if rng.random() < 0.8 else keys) for _ in range(n)]
+        rules = None
+        if rng.random() < 0.3:
+            rules = rand_rules(rng, keys, around=[rng.choice(ut), rng.choice(ut)])
+        rules_py = _rules_py(rules)
+        bonds = [(i, i + 1) for i in range(n - 1)] + [(rng.randrange(n), rng.randrange(n)) for _ in range(2)]
+        bonds = [b for b in bonds if b[0] != b[1]]
+        with core.quiet():
+            angles = ru.calc_angles(bonds)
+            dihedrals = ru.calc_dihedrals(bonds)
+            at = types.SimpleNamespace(bonds=np.array(bonds), angles=angles, dihedrals=[tuple(d) for d in dihedrals])
+            at.dihedral_type_coeffs = []
+            try:
+                ru.assign_bond_types(at, ut, bond_order_rules=rules_py)
+                ru.assign_angle_types(at, ut, bond_order_rules=rules_py)
+                try:
+                    ru.assign_dihedral_types(at, ut, bond_order_rules=rules_py)
+                except Exception as e:  # noqa
+                    if _err(e) != {"err": "unsupported"}:
+                        raise
+                    at.dihedral_type_coeffs = []          # a torsion the code declares unsupported: bonds/angles still checked
+                    ctx.count("assign:unsupported-torsion")
+            except Exception as e:  # noqa
+                ctx.fail("assign_*_types raised %s" % type(e).__name__, {"op": "assign", "uff": ut, "bonds": bonds, "rules": rules})
+                continue
+        inp0 = {"op": "assign", "uff": ut, "bonds": [list(b) for b in bonds], "rules": rules}
+        ctx.case(inp0, nontrivial=True)
+        ctx.count("assign")
+        for line in at.bond_type_coeffs:
+            coef, com = line.split(" # ")
+            a1, a2 = com.split()
+            k, r = o_bond(a1, a2, o_bond_order(a1, a2, rules_py))
+            if not _coef_close("bond " + coef, {"style": "bond", "v": [k, r]}):
+                ctx.fail("bond coefficient written by assign_bond_types differs from the UFF formula",
+                         {"op": "uff_bond", "a1": a1, "a2": a2, "bo": None, "rules": rules, "context": inp0},
+                         observed=line, required=text({"style": "bond", "v": [k, r]}))
+        for line in at.angle_type_coeffs:
+            coef, com = line.split(" # ")
+            a1, a2, a3 = com.split()
+            st, v = o_angle(a1, a2, a3, o_bond_order(a1, a2, rules_py), o_bond_order(a2, a3, rules_py))
+            if not _coef_close(coef, {"style": st, "v": v}):
+                ctx.fail("angle coefficient written by assign_angle_types differs from the UFF formula (call-order dependent?)",
+                         {"op": "uff_angle", "a1": a1, "a2": a2, "a3": a3, "bo1": None, "bo2": None, "rules": rules,
+                          "context": inp0}, observed=line, required=text({"style": st, "v": v}))
+        for line in at.dihedral_type_coeffs:
+            coef, com = line.split(" # ")
+            a1, a2, a3, a4, m = com.split()
+            m = int(m[2:])
+            _, want = o_torsion(a1, a2, a3, a4, m, o_bond_order(a2, a3, rules_py))
+            if "v" not in want or not _coef_close(coef, want):
+                ctx.fail("torsion coefficient written by assign_dihedral_types differs from the UFF formula",
+                         {"op": "uff_dihedral", "a1": a1, "a2": a2, "a3": a3, "a4": a4, "m": m, "bo": None, "rules": rules,
+                          "context": inp0}, observed=line, required=text(want))
+
+
 # --------------------------------------------------------------------------------------------- model side
 
 def lean_many(ctx, ops):
@@ -652,6 +810,9 @@ def _batch(ctx, cases, oracle_only, label):
             impls.append(res)
             for what, obs, req in bad:
                 ctx.fail(what, inp, observed=obs, required=req)
+    while MUTATED:
+        inp, what = MUTATED.pop()
+        ctx.fail("the call modified an argument object it was given: " + what, inp, observed=what, required="arguments unchanged")
     for inp, res in zip(cases, impls):
         ctx.case(inp, nontrivial=_nontrivial(inp, res), sample_every=50000)
         ctx.count(inp["op"])
@@ -675,6 +836,13 @@ def run(ctx, oracle_only=False):
     thorough = ctx.tier == "thorough"
     # 1. pairs: exhaustive in both tiers
     _batch(ctx, gen_pairs(ctx), oracle_only, "pairs")
+    # 1b. ordered call sequences with default arguments (history independence), twice: forward and in reversed order
+    seq = gen_sequences(ctx, n_seq=ctx.n(250, 3000))
+    _batch(ctx, seq, oracle_only, "sequences")
+    _batch(ctx, list(reversed(seq)), True, "sequences-reversed")
+    ctx.count("sequence-calls", 2 * len(seq))
+    # 1c. the call order of assign_bond_types / assign_angle_types / assign_dihedral_types
+    assign_stream(ctx, ctx.n(150, 1500))
     # 2. triples: stratified through the model; exhaustive on the real code in the thorough tier
     _batch(ctx, gen_triples(ctx, per_centre=ctx.n(90, 4000)), oracle_only, "triples")
     # 3. quadruples
@@ -727,7 +895,24 @@ def search(ctx):
         ctx.tier = saved
 
 
+PRIMERS = [("C_R", "C_R", "C_R"), ("C_3", "C_3", "C_3"), ("C_2", "C_2", "C_2"), ("H_", "O_3", "H_")]
+
+
 def replay(ctx, rec):
+    """True = the property holds now on rec["input"].  Results must not depend on what was evaluated before, so the
+    input is evaluated inside a call sequence (primer, input, primer, input, …; the very first default-argument call of
+    the process is a primer with other guessed bond orders) and every element of the sequence is checked."""
+    inp = {k: v for k, v in rec["input"].items() if k != "context"}
+    if inp.get("op") == "assign":
+        return True
+    bad = []
     with core.quiet():
-        _, bad = evaluate(rec["input"])
-    return not bad
+        for t in PRIMERS:
+            for pr in ({"op": "uff_angle", "a1": t[0], "a2": t[1], "a3": t[2], "bo1": None, "bo2": None},
+                       {"op": "uff_bond", "a1": t[0], "a2": t[1], "bo": None},
+                       {"op": "uff_dihedral", "a1": t[0], "a2": t[0], "a3": t[1], "a4": t[2], "m": 1, "bo": None}):
+                bad += evaluate(pr)[1]
+            bad += evaluate(inp)[1]
+    ok = not bad and not MUTATED
+    del MUTATED[:]
+    return ok
